@@ -75,7 +75,7 @@ package hub
 
 //@ func (h *Hub).UnregisterRemoteSKI(ski) entry [C15,C10]
 //@   ensures [C10] D2-untrusted: @K() in h.remoteServices && !h.remoteServices[@K()].trusted && h.remoteServices[@K()].connectionStateDetail.state == api.ConnectionStateNone
-//@   ensures [C10] D2-counter: !(@K() in h.connectionAttemptCounter)
+//@   ensures [C10,C15] D2-counter: !(@K() in h.connectionAttemptCounter)
 //@   ensures [C15] U1-closed: @K() in old(h.connections) ==> old(h.connections[@K()]).$closeCalls == old(h.connections[@K()].$closeCalls) + 1 && old(h.connections[@K()]).$lastSafe && old(h.connections[@K()]).$lastCode == 4500
 //@   ensures [C15] U2-others: @RSFRAME(h) && (forall j: string :: j != @K() ==> $Trusted[j] == old($Trusted[j]))
 //@   atcall ServicePairingDetailUpdate [C15] U3-callback: $0 == @K()
@@ -88,7 +88,7 @@ package hub
 //@ func (h *Hub).CancelPairingWithSKI(ski) entry [C15,C10]
 //@   ensures [C10,C01] D3-aborted: @K() in old(h.connections) ==> old(h.connections[@K()]).$abortCalls == old(h.connections[@K()].$abortCalls) + 1
 //@   ensures [C10,C01] D3-untrusted: @K() in h.remoteServices && !h.remoteServices[@K()].trusted && h.remoteServices[@K()].connectionStateDetail.state == api.ConnectionStateNone
-//@   ensures [C10] D3-counter: !(@K() in h.connectionAttemptCounter)
+//@   ensures [C10,C15] D3-counter: !(@K() in h.connectionAttemptCounter)
 //@   ensures [C15] C2-others: @RSFRAME(h) && (forall j: string :: j != @K() ==> $Trusted[j] == old($Trusted[j]))
 //@   atcall ServicePairingDetailUpdate [C15] C3-callback: $0 == @K()
 //@   modifies *
@@ -229,6 +229,11 @@ package hub
 //@   requires @HUBINV(h) && entry != nil
 //@   ensures @HUBINV(h)
 //@   modifies h.connectionAttemptRunning[ski], h.connectionAttemptCounter[ski], h.remoteServices[norm(ski)]
+// C09: a newly learnt SHIP ID has reached the application when this returns - the SHIP layer calls SetupRemoteDevice
+// only afterwards (ship: P3-order), so the application never sets up a device whose ID it has not been told
+//@ func (h *Hub).ReportServiceShipID(ski, shipdID) entry [C09]
+//@   ensures [C09] P6-forwarded: $appIdReports[ski] == old($appIdReports[ski]) + 1 && $appLastId[ski] == shipdID
+//@   modifies $appIdReports[ski], $appLastId[ski]
 // the delayed pairing-detail report: a goroutine body of its own (every `go` callee needs a contract)
 //@ closure (h *Hub).HandleShipHandshakeStateUpdate$1 [C08]
 //@   requires @HUBINV(h)
